@@ -42,3 +42,9 @@ VARIANTS += [
     V("twin-init-extras-in-ambient-mode", ADJ, INIT,
       "        with torch.set_grad_enabled(torch.is_grad_enabled()):\n            extra_solver_state = solver.init_extra_solver_state(ts[0], y0)\n\n    ys, *extra_solver_state = _SdeintAdjointMethod.apply(", expect="silent"),
 ]
+
+VARIANTS += [
+    # session-4 repair: a single output time (the unrepaired backward pass never unpacked the augmented state)
+    V("single-output-time-not-unpacked", AD, "        if ys.size(0) == 1:\n", "        if False:\n", rule="R09.9"),
+    V("twin-single-output-time-by-length", AD, "        if ys.size(0) == 1:\n", "        if len(ys) == 1:\n", expect="silent"),
+]
